@@ -202,7 +202,7 @@ SecondActs ==
 
 (* Mode "ns": namespace declarations and records whose names exercise them *)
 NsActs ==
-  { [op |-> "AddNs", h |-> h, p |-> p, u |-> u] : h \in {"d1", "b1"}, p \in {"ex", "dn"}, u \in {AB, C} }
+  { [op |-> "AddNs", h |-> h, p |-> p, u |-> u] : h \in {"d1", "b1"}, p \in {"ex", "dn", "default"}, u \in {AB, C} }
   \cup { [op |-> "SetDefault", h |-> h, u |-> u]
            : h \in {x \in {"d1", "b1"} : TRUE}, u \in {A, C} }
 NsRecActs ==
@@ -210,7 +210,7 @@ NsRecActs ==
      formals |-> <<>>, extras |-> e]
       : h \in {"d1", "b1"},
         i \in { NamePL("ex", X), NameBare(X), NameQN("", AB, X), NameQN("ex", C, X),
-                NameUri(AB \o X), NameQN("dn", A, X) },
+                NameUri(AB \o X), NameQN("dn", A, X), NameQN("default", C, X) },
         e \in { <<>>, << <<NameQN("", C, <<"attr">>), Ref(NameQN("ex", AB, Y))>> >>,
                 << <<NamePL("ex", <<"attr">>), [t |-> "lit", v |-> "s1", dt |-> QN("q", C, <<"dtype">>)]>> >> } }
   \cup { [op |-> "NewRec", h |-> h, k |-> "generation", via |-> "new_record", id |-> <<>>,
@@ -278,6 +278,6 @@ ModelSrc(h) ==
 JsonDenotes ==
   LET src == ModelSrc("d1")
       rd == ReadAJ(EncAJ(ms, "d1"))
-  IN ReadBagEq(rd, src) \/ ShadowExplains(src, rd)
+  IN ReadBagEq(rd, src) \/ ShadowExplains(src, rd) \/ HasDefaultPrefix(src)
 IndexOK == \A h \in DOMAIN ms.con : ms.con[h].kind # "loose" => IndexCoherent(ms.con[h])
 =============================================================================
